@@ -7502,8 +7502,7 @@ template <class R>
 typename SoPlexBase<R>::RangeType SoPlexBase<R>::_rangeTypeReal(const R& lower,
       const R& upper) const
 {
-   assert(lower <= upper);
-
+   // crossing bounds (lower > upper) come unchecked from files and from the change methods: both finite means boxed
    // the same threshold as _rangeTypeRational (_rationalPosInfty is the INFTY parameter): with a non-default INFTY the
    // global constant classified a bound as finite that the rational side treats as infinite
 
@@ -7532,8 +7531,7 @@ template <class R>
 typename SoPlexBase<R>::RangeType SoPlexBase<R>::_rangeTypeRational(const Rational& lower,
       const Rational& upper) const
 {
-   assert(lower <= upper);
-
+   // crossing bounds (lower > upper) come unchecked from files and from the change methods: both finite means boxed
    if(lower <= _rationalNegInfty)
    {
       if(upper >= _rationalPosInfty)
